@@ -131,18 +131,33 @@ def Stream.upgrade (clientSide : Bool) : M Stream Unit := do
   let _ ← processInput (if clientSide then .UPGRADE_CLIENT else .UPGRADE_SERVER)
   pure ()
 
-def Stream.sendHeaders (cfg : Config) (headers : List Header) (endStream : Bool) (priorityPresent : Bool := false) :
-    SH (List Frame) := do
-  let s ← getS
-  let informational ← if s.1.sm.client != some true then liftExcept (isInformationalResponse headers) else pure false
-  if informational && endStream then raise protoErr' else
-  let input := if informational then StreamInputs.SEND_INFORMATIONAL_HEADERS else StreamInputs.SEND_HEADERS
-  let events ← onStream (processInput input)
-  let s ← getS
-  if s.1.sm.trailersSent && !endStream then raise protoErr' else
-  if s.1.sid == 0 then raise (.py .InvalidDataError) else
+/-- the part of `send_headers` inside its `try:` block: the trailers check, the validation flags and
+    `_build_headers_frames` -/
+def Stream.guardedHeaderBlocks (cfg : Config) (headers : List Header) (endStream priorityPresent : Bool)
+    (events : List SEv) : SH (List Bytes) := do
+  let s1 ← getS
+  if s1.1.sm.trailersSent && !endStream then raise protoErr' else
+  if s1.1.sid == 0 then raise (.py .InvalidDataError) else
   let fl ← onStream (buildHdrFlags events)
-  let blocks ← buildHeaderBlocks cfg headers fl (if priorityPresent then 5 else 0)
+  buildHeaderBlocks cfg headers fl (if priorityPresent then 5 else 0)
+
+/-- `sm.state, sm.headers_sent, sm.trailers_sent = saved` -/
+def Stream.restoreSaved (saved : Shape) (t : Stream) : Stream :=
+  { t with sm := { t.sm with sh := { t.sm.sh with
+      state := saved.state, headersSent := saved.headersSent, trailersSent := saved.trailersSent } } }
+
+/-- `send_headers` once it is decided whether the block is an informational response -/
+def Stream.sendHeadersAs (input : StreamInputs) (cfg : Config) (headers : List Header) (endStream : Bool)
+    (priorityPresent : Bool) : SH (List Frame) := do
+  let s ← getS
+  let events ← onStream (processInput input)
+  -- `try: ... except Exception: sm.state, sm.headers_sent, sm.trailers_sent = saved; raise`:
+  -- a refused header block leaves the stream state machine as it was
+  let blocks ← tryCatch (Stream.guardedHeaderBlocks cfg headers endStream priorityPresent events)
+    (fun _ => true)
+    (fun e => do
+      modifyS fun t => (t.1.restoreSaved s.1.sm.sh, t.2)
+      raise e)
   let sid := s.1.sid
   let frames := mkHeaderFrames (fun b eh => Frame.headers sid b false eh none none) sid blocks
   let frames ← if endStream then do
@@ -156,6 +171,14 @@ def Stream.sendHeaders (cfg : Config) (headers : List Header) (endStream : Bool)
     let st := if !st.sm.trailersSent then { st with requestMethod := extractMethodHeader headers } else st
     (st, s.2)
   pure frames
+
+def Stream.sendHeaders (cfg : Config) (headers : List Header) (endStream : Bool) (priorityPresent : Bool := false) :
+    SH (List Frame) := do
+  let s ← getS
+  let informational ← if s.1.sm.client != some true then liftExcept (isInformationalResponse headers) else pure false
+  if informational && endStream then raise protoErr' else
+  Stream.sendHeadersAs (if informational then StreamInputs.SEND_INFORMATIONAL_HEADERS else StreamInputs.SEND_HEADERS)
+    cfg headers endStream priorityPresent
 
 def Stream.pushStreamInBand (cfg : Config) (related : Int) (headers : List Header) : SH (List Frame) := do
   let events ← onStream (processInput .SEND_PUSH_PROMISE)
